@@ -1027,7 +1027,7 @@ func c13(r *vkit.Run) {
 		}
 		return
 	}
-	nWorlds := r.N(300, 6000)
+	nWorlds := r.N(300, 4000)
 	// per world: 1 acceptance + 3 closure breaks + 7 mutations
 	vkit.Parallel(nWorlds, 0, func(i int) {
 		g := r.Rng("world", i)
